@@ -242,6 +242,9 @@ def run(prog, chk):
                         elif seen_one and v['type'] == 'double':
                             it.scalars[v['id']] = it.amp_expr(v['init'])
             fin = KP.pair_final(it, l2[1])
+        except KP.OutsidePair as e:
+            chk.ob('R04.2', rs, loops[1].get('ln', rs.ln), False, 'the update loop acts on the pair (i, i|2^q) of the swept index: %s' % e, key='transform:cells')
+            return
         except (KP.NotPairwise, KS.Unfoldable) as e:
             raise AnalysisBroken('reset update loop: ' + str(e))
         want0 = KP.A[1] / sp.sqrt(p1) if one else KP.A[0] / sp.sqrt(p0)
